@@ -1040,3 +1040,90 @@ def check_src_cover(rep, floor):
                             % (u.where(lds[0], f), ('%d' % -e[0]) if e is not None and e[1] == 0 else 'an index in [%s, %s]' % (', '.join('%d' % -x[0] for x in sorted(g.hi) if x[1] == 0) or '?', ', '.join('%d' % -x[0] for x in sorted(g.lo) if x[1] == 0) or '?')),
                             key='R-SRC-COVER|%s|%#x' % (sym, h - f.entry), sample='%s loop@+%#x: exits after fetching array[0]' % (sym, h - f.entry) if sym.endswith('_avx') else None)
     return R
+
+
+def check_len_width(rep, families, suffix, floor):
+    """L-LEN-WIDTH: kernels whose length parameter is 64 bits wide (size_t / uint64_t) must not do 32-bit arithmetic in place on a value
+    that still depends on the full length, unless the branch conditions on the path bound it below 2^32."""
+    import provenance
+    R = rep.rule('L-LEN-WIDTH-' + suffix, 'kernels taking a 64-bit length: every in-place 32-bit arithmetic instruction (shift, add, sub, inc, dec, neg, lea) whose destination register holds a value that depends on the '
+                 'length has that value bounded below 2^32 by the guards on every path (BOUNDS: a constant upper bound, or an upper bound on the length itself); otherwise the upper half of a large length is silently dropped',
+                 floor=floor, unit='kernels')
+    res, _ = provenance.analyse('default')
+    ARITH = ('shr', 'sar', 'shl', 'sal', 'add', 'sub', 'inc', 'dec', 'neg', 'lea', 'imul', 'sbb', 'adc')
+    for sym, info in sorted(res.items()):
+        fam = info['fam']['family']
+        if fam not in families or re.match(r'^crc32_iscsi_', sym):      # crc32_iscsi(buffer, int len, init): a 32-bit length
+            continue
+        R.instance()
+        u, f = info['unit'], info['func']
+        pargs = [r for r, v in info['fam']['args'].items() if v[0] == 'P' and isinstance(v[1], str) and v[1] in NBUF_TAGS and v[2] == (0, 0)]
+        bd = Bounds(u, f, info['flow'], len_reg(sym, fam), ptr_args=pargs)
+        bd.run()
+        # which registers hold a value computed from the length argument (may-taint, forward)
+        lr = len_reg(sym, fam)
+        TIN = {f.entry: frozenset([lr])}
+        work = [f.entry]
+        while work:
+            a = work.pop()
+            t = set(TIN[a])
+            i = u.insns[a]
+            ops = i.ops
+            d = REG64.get(ops[0]) if ops and not is_mem(ops[0]) else None
+            if d is not None and i.mn not in ('cmp', 'test', 'push') and not is_cond_jump(i.mn):
+                uses, _ = regdef.def_use(i)
+                addr = set()
+                if i.mn != 'lea':
+                    for o in ops:
+                        if is_mem(o):
+                            m = parse_mem(o)
+                            addr |= {REG64[x][0] for x in (m['base'], m['index']) if x in REG64}
+                tainted = any(x in t for x in uses if x not in addr or x in [REG64[o][0] for o in ops if o in REG64])
+                if i.mn == 'and' and len(ops) == 2 and IMM.match(ops[1]) and 0 <= imm(ops[1]) < (1 << 31):
+                    tainted = False
+                if i.mn in ('xor', 'sub') and len(ops) == 2 and ops[0] == ops[1]:
+                    tainted = False
+                if i.mn.startswith('set') or (i.mn in ('mov', 'movzx') and len(ops) == 2 and (is_mem(ops[1]) or IMM.match(ops[1]))):
+                    tainted = False
+                if tainted:
+                    t.add(d[0])
+                else:
+                    t.discard(d[0])
+            elif d is None and ops:
+                _, defs = regdef.def_use(i)
+                for r_ in defs:
+                    t.discard(r_)
+            ft = frozenset(t)
+            for nx in u.succ(f, a):
+                if nx not in TIN:
+                    TIN[nx] = ft
+                    work.append(nx)
+                elif not ft <= TIN[nx]:
+                    TIN[nx] = TIN[nx] | ft
+                    work.append(nx)
+        n = 0
+        for a in f.addrs:
+            i = u.insns[a]
+            if i.mn not in ARITH or not i.ops or i.ops[0] not in REG64 or REG64[i.ops[0]][1] != 32:
+                continue
+            st = bd.IN.get(a)
+            if st is None or a not in TIN:
+                continue
+            r = REG64[i.ops[0]][0]
+            if i.mn == 'lea':
+                m = parse_mem(i.ops[1])
+                srcs = [REG64[x][0] for x in (m['base'], m['index']) if x in REG64]
+            else:
+                srcs = [r]
+            for sr in srcs:
+                if sr not in TIN[a]:
+                    continue
+                v = st.r.get(sr, TOPB)
+                n += 1
+                small = any(x[1] == 0 and x[0] < (1 << 32) for x in v.hi) or (st.nhi is not None and st.nhi < (1 << 31))
+                R.check(small, '%s: %s' % (u.name, u.where(i, f)), '32-bit "%s" on %s, which holds a value computed from the 64-bit length and not bounded below 2^32 on this path (bounds %s, length known to be <= %s): for lengths of 4 GiB or more the upper half is dropped' %
+                        (re.sub(r'\s+', ' ', i.text), sr, v, 'nothing' if st.nhi is None else st.nhi), key='L-LEN-WIDTH|%s|%s' % (sym, re.sub(r'\s+', ' ', i.text)),
+                        sample='%s: 32-bit "%s" only where the value is < 2^32' % (sym, re.sub(r'\s+', ' ', i.text)))
+        if n == 0:
+            R.ok(1, sample='%s: no 32-bit arithmetic on a length-dependent value' % sym if sym.endswith('avx512') else None)
+    return R
